@@ -6,7 +6,7 @@ import numpy as np
 from . import gen
 
 OFFGRID = -999999
-SP_NAMES = ['Li', 'Na', 'O', 'S']          # species code = index
+SP_NAMES = ['Li', 'Na', 'O', 'S', 'Si', 'N']          # species code = index; S/Si and N/Na contain each other
 BASE = 16                                   # raw inputs live on the /16 grid
 LC = 12                                     # lcm(1..4): drift means over <= 4 reference atoms stay on the grid
 N = BASE * LC                               # 192
@@ -72,7 +72,7 @@ class Recorder:
         from gemdat import Trajectory
         rng = self.rng
         c = self.raw_coords(T, A, max_step)
-        sp = species or [int(x) for x in rng.integers(0, 3, size=A)]
+        sp = species or [int(x) for x in rng.choice([0, 1, 2, 3, 4, 5] if rng.random() < 0.5 else [3, 4, 5, 1], size=A)]
         mk = Species if rng.random() < 0.5 else Element
         dt, temp = int(rng.integers(1, 4)), int(rng.integers(100, 900))
         t = Trajectory(species=[mk(SP_NAMES[s]) for s in sp], coords=c / N, lattice=self.lattice,
@@ -301,6 +301,18 @@ def random_behaviour(b, rng, family, orientation, n_steps, acts, max_objs=6, Tma
                                              species=[SP_NAMES.index(s.symbol) for s in t.species]) is not None)
         elif act == 'ConstructFaces':
             ok = not full and (rec.construct_faces(int(rng.integers(2, 6)), int(rng.integers(1, 4))) is not None)
+        elif act == 'FaceProbe':
+            # a face-adjacent object taken through every representation switch: positions and displacements alternately,
+            # then the queries that switch modes internally
+            ok = not full
+            if ok:
+                j = rec.construct_faces(int(rng.integers(2, 6)), int(rng.integers(1, 4)))
+                for q in ('GetPos', 'GetDisp', 'GetPos', 'Dist', 'GetPos', 'CumDisp', 'GetPos'):
+                    getattr(rec, {'GetPos': 'get_pos', 'GetDisp': 'get_disp', 'Dist': 'dist', 'CumDisp': 'cum_disp'}[q])(j)
+                rec.read_only(j, 'msd')
+                rec.get_pos(j)
+                rec.read_only(j, 'volume')
+                rec.get_pos(j)
         elif act == 'ConstructDisp':
             ok = not full and (rec.construct_disp(int(rng.integers(2, Tmax + 1)), int(rng.integers(1, Amax + 1)), max_step) is not None)
         elif act == 'GetPos':
